@@ -237,6 +237,9 @@ pub fn random_spec(rng: &mut Rng, p: &Profile) -> CaseSpec {
             if rng.chance(1, 4) { s |= F_NO_BONUS; }
             if rng.chance(1, 4) { s |= F_NO_DEAD_END; }
             if rng.chance(1, 5) { s |= F_ABSORBING; }
+            // large: many base states (no 're-convergent' shrinking); half of them without bonus: the states of a layer are the
+            // few base states, so that a simple fringe accumulates long runs of stale duplicates
+            if large { s &= !F_RECONVERGENT; if rng.chance(1, 2) { s |= F_NO_BONUS; } }
             s
         }
         'Q' => if medium { QSZ_MEDIUM } else if p.small && rng.chance(1, 2) { QSZ_SMALL } else { QSZ_TINY },
@@ -257,7 +260,7 @@ pub fn random_spec(rng: &mut Rng, p: &Profile) -> CaseSpec {
         let mut v = variant;
         // a loose admissible bound: long searches (hundreds / thousands of sub-problems, fringes of hundreds of nodes)
         v.rub = RubKind::Slack((rng.next() % 1000) | 1);
-        (v, WidthKind::Fixed(2 + rng.usize(5)))
+        (v, WidthKind::Fixed(if rng.chance(1, 2) { 2 + rng.usize(5) } else { 6 + rng.usize(9) }))
     } else { (variant, width) };
     let cfg = Cfg::seq(dd, rng.chance(1, 2), if rng.chance(1, 2) { FringeKind::Simple } else { FringeKind::NoDup }, width);
     CaseSpec { family: fam, gen_seed: rng.next() >> 16, size, variant, cfg }
